@@ -456,3 +456,232 @@ Example c04_ex_history :
   nth 11 (snd r) [] = [(1%N, MetaDel 2 [(2, 4)])] /\
   map m_delid (msgs (st (fst r))) = [0; 2; 2].
 Proof. exact history_example. Qed.
+
+(* ====================================================================== *)
+(* C04, layer 2, requests executed ON BEHALF OF another user ({extra: {obo: u}}).
+
+   "... minus those hard-deleted for everyone or soft-deleted by THAT SAME USER ... another
+   user's soft deletions hide nothing": the user of a request is the user it is executed as
+   (msg.AsUser): the session's own user, or - for a root session only - the user named by
+   extra.obo.  Model: Sys/TopicOboC04.v.  A request is [QReq obo op], or [QSubGet obo ...] for
+   {sub get="data del"}; [dispatch_as_c04] is
+   Session.dispatch's choice of the acting user (403 for a non-root session naming a user, 400
+   for a malformed name); an executed request is one [step] of the product model under the
+   session map in which the session stands for the acting user (a root session = a family of
+   virtual sessions sharing one attachment); [ostep_c04] / [orun_c04] return [None] outside the
+   modelled fragment of a root session's requests (see the head of Sys/TopicOboC04.v);
+   [oevent_c04] attributes an accepted publish / deletion to the ACTING user.
+   All statements are for every history of (obo, op) requests, any users, sessions, root flags,
+   modes and store faults unless a hypothesis says otherwise.                               *)
+From Tinode Require Import Sys.TopicOboC04 Sys.TopicOboC04Proofs.
+
+(* ---- who a request is executed as ---- *)
+
+Theorem c04_obo_dispatch : forall sm roots sid ob u, dispatch_as_c04 sm roots sid ob = inl u ->
+  (ob = OboNone /\ u = sess_uid sm sid) \/ (ob = OboUser u /\ is_root_c04 roots sid = true /\ u <> 0%N).
+Proof. exact dispatch_inl. Qed.
+Print Assumptions c04_obo_dispatch.
+
+(* a session that is not root cannot act for anybody else: 403, no store call, nothing changed *)
+Theorem c04_obo_needs_root : forall sm roots f x ob o sid, op_sid o = Some sid ->
+  has_obo_c04 ob = true -> is_root_c04 roots sid = false ->
+  ostep_c04 sm roots f x (QReq ob o) = Some (mkState (st x) (ca x) 0, [(sid, Ctrl 403 [])]).
+Proof. exact ostep_needs_root. Qed.
+Print Assumptions c04_obo_needs_root.
+
+(* the wrapper is conservative: a history without extra.obo and without root sessions runs
+   exactly as the product model of the second part *)
+Theorem c04_obo_conservative : forall sm h x,
+  orun_c04 sm [] x (map (fun fo => (fst fo, QReq OboNone (snd fo))) h) = Some (run_i sm x h).
+Proof. exact orun_plain. Qed.
+Print Assumptions c04_obo_conservative.
+
+(* ---- refinement: every accepted request is a specification transition of the ACTING user ---- *)
+
+Theorem c04_obo_history_refines : forall sm roots s0 h x,
+  hist_init s0 -> ohist_ok_c04 sm roots h -> oreach_c04 sm roots s0 h = Some x ->
+  heq (abs (st x)) (ohs_run_c04 sm roots (mkState s0 None 0) h (abs s0)) /\ inv_hist x.
+Proof. exact oreach_refines. Qed.
+Print Assumptions c04_obo_history_refines.
+
+Theorem c04_obo_request_refines : forall sm roots x fq x1 o1, inv_hist x -> oreq_ok_c04 sm roots fq ->
+  ostep_f_c04 sm roots x fq = Some (x1, o1) ->
+  heq (abs (st x1)) (hs_step (abs (st x)) (oevent_c04 sm roots x (snd fq) o1)) /\ inv_hist x1.
+Proof. exact ostep_f_sim. Qed.
+Print Assumptions c04_obo_request_refines.
+
+(* the transition of an accepted {del msg}: the deletion is the ACTING user's - soft: hidden
+   from him only (c04_soft_hides_for_requester_only), hard iff asked and D in HIS mode *)
+Theorem c04_obo_delete_is_acting_users : forall sm roots s c n0 sid ob u req hard ou,
+  attached c sid = true -> dispatch_as_c04 sm roots sid ob = inl u ->
+  oevent_c04 sm roots (mkState s (Some c) n0) (QReq ob (ODelMsg sid req hard)) ou =
+  match head_frame ou with
+  | Some (Ctrl code [(_, _)]) =>
+    if code =? 200 then HDel u (hard && is_deleter (user_mode c u)) (req_ids (c_lastid c) req) else HNone
+  | _ => HNone
+  end.
+Proof. exact obo_del_event. Qed.
+Print Assumptions c04_obo_delete_is_acting_users.
+
+(* ---- the three requests depend on the acting user only ---- *)
+
+(* an attached session: {get data} / {get del} / {del msg} are the topic's handlers applied to
+   the ACTING user (his mode in the cache, his rows in the deletion log), under any faults,
+   whoever owns the session and whoever it is attached as *)
+Theorem c04_obo_query_runs_as_acting : forall sm roots f s c n0 sid ob u q, attached c sid = true ->
+  dispatch_as_c04 sm roots sid ob = inl u ->
+  ostep_c04 sm roots f (mkState s (Some c) n0) (QReq ob (op_of_query_c04 sid q)) =
+  Some (let h := handle_query_c04 f s c sid u q in (mkState (h_st h) (Some (h_ca h)) (h_n h), h_out h)).
+Proof. exact ostep_query. Qed.
+Print Assumptions c04_obo_query_runs_as_acting.
+
+(* two attached sessions acting for the same user (a root session with extra.obo = u and u's own
+   session, or two root sessions) get the same frames and leave the same state behind *)
+Theorem c04_obo_same_answer : forall sm roots f s c n0 sid1 ob1 sid2 ob2 u q,
+  attached c sid1 = true -> attached c sid2 = true ->
+  dispatch_as_c04 sm roots sid1 ob1 = inl u -> dispatch_as_c04 sm roots sid2 ob2 = inl u ->
+  exists x' o1 o2,
+    ostep_c04 sm roots f (mkState s (Some c) n0) (QReq ob1 (op_of_query_c04 sid1 q)) = Some (x', o1) /\
+    ostep_c04 sm roots f (mkState s (Some c) n0) (QReq ob2 (op_of_query_c04 sid2 q)) = Some (x', o2) /\
+    map snd o1 = map snd o2 /\ Forall (fun e => fst e = sid1) o1 /\ Forall (fun e => fst e = sid2) o2.
+Proof. exact obo_same_answer. Qed.
+Print Assumptions c04_obo_same_answer.
+
+(* the attached-session test is about the SESSION: not attached -> 403 (get) / 409 (del), nothing
+   changed, whoever it acts for and whatever other sessions that user has *)
+Theorem c04_obo_needs_attach : forall sm roots f s cx n0 sid ob u q,
+  match cx with Some c => attached c sid = false | None => True end ->
+  dispatch_as_c04 sm roots sid ob = inl u ->
+  ostep_c04 sm roots f (mkState s cx n0) (QReq ob (op_of_query_c04 sid q)) =
+  Some (mkState s cx 0, [(sid, Ctrl (match q with QDelMsg _ _ => 409 | _ => 403 end) [])]).
+Proof. exact ostep_query_detached. Qed.
+Print Assumptions c04_obo_needs_attach.
+
+(* ---- {sub get="data del"} ---- *)
+
+(* the subscription part, then - unless it was refused - replyGetData and replyGetDel for the
+   SAME acting user ([sub_get_c04], the model of handleSubscription) *)
+Theorem c04_obo_sub_get_runs_as_acting : forall sm roots f x ob sid u want bkg gd gl,
+  dispatch_as_c04 sm roots sid ob = inl u ->
+  (is_root_c04 roots sid = true -> has_obo_c04 ob = true) ->
+  ostep_c04 sm roots f x (QSubGet ob sid want bkg gd gl) =
+  Some (sub_get_c04 (sm_as_c04 sm sid u) f x sid u want bkg gd gl).
+Proof. exact ostep_sub_get. Qed.
+Print Assumptions c04_obo_sub_get_runs_as_acting.
+
+(* without store faults its frames are the subscription reply followed by what {get data} and
+   {get del} from the now attached session answer for that user: c04_obo_get_data_exact /
+   c04_obo_get_del_exact / c04_obo_same_answer apply to them *)
+Theorem c04_obo_sub_get_as_requests : forall sm' x sid want bkg a b l a' b' l' x1 o1 c,
+  step_i sm' NoFault x (OSub sid want bkg) = (x1, o1) -> sub_accepted_c04 sid o1 = true ->
+  ca x1 = Some c -> attached c sid = true ->
+  let r := sub_get_c04 sm' NoFault x sid (sess_uid sm' sid) want bkg (Some (a, b, l)) (Some (a', b', l')) in
+  snd r = o1 ++ snd (step_i sm' NoFault x1 (OGetData sid a b l)) ++ snd (step_i sm' NoFault x1 (OGetDel sid a' b' l')) /\
+  st (fst r) = st x1 /\ ca (fst r) = ca x1.
+Proof. exact sub_get_as_requests. Qed.
+Print Assumptions c04_obo_sub_get_as_requests.
+
+Theorem c04_obo_sub_get_refused : forall sm' f x sid u want bkg gd gl,
+  sub_accepted_c04 sid (snd (step_i sm' f x (OSub sid want bkg))) = false ->
+  sub_get_c04 sm' f x sid u want bkg gd gl = step_i sm' f x (OSub sid want bkg).
+Proof. exact sub_get_refused. Qed.
+Print Assumptions c04_obo_sub_get_refused.
+
+(* ---- {get data} / {get del} after ANY history with obo requests (any faults) ---- *)
+
+(* the answer is exactly the ACTING user's view of the history per the specification: newest
+   first, at most min(limit,100), every frame a message in [since,before) visible to u with its
+   author and content, every such message present unless the answer is full and it is older *)
+Theorem c04_obo_get_data_exact : forall sm roots s0 h x c sid ob u since before limit,
+  hist_init s0 -> oreach_c04 sm roots s0 h = Some x -> ca x = Some c -> attached c sid = true ->
+  dispatch_as_c04 sm roots sid ob = inl u -> is_reader (user_mode c u) = true ->
+  exists x' o, ostep_c04 sm roots NoFault x (QReq ob (OGetData sid since before limit)) = Some (x', o) /\
+  st x' = st x /\
+  let fr := data_of o in
+  let lim := Z.to_nat (eff_limit max_msg_results limit) in
+  o = map (fun e => (sid, Data (fst (fst e)) (snd (fst e)) (snd e))) fr ++ [(sid, data_closing (length fr))] /\
+  (length fr <= lim)%nat /\
+  StronglySorted data_gt fr /\
+  (forall y a ct, In (y, a, ct) fr -> in_window since before y = true /\ hs_visible (abs (st x)) u y = Some (a, ct)) /\
+  (forall y a ct, in_window since before y = true -> hs_visible (abs (st x)) u y = Some (a, ct) ->
+     In (y, a, ct) fr \/ (length fr = lim /\ forall e, In e fr -> y < fst (fst e))).
+Proof. exact obo_get_data_history. Qed.
+Print Assumptions c04_obo_get_data_exact.
+
+Theorem c04_obo_get_del_exact : forall sm roots s0 h x c sid ob u since before limit,
+  hist_init s0 -> oreach_c04 sm roots s0 h = Some x -> ca x = Some c -> attached c sid = true ->
+  dispatch_as_c04 sm roots sid ob = inl u -> is_reader (user_mode c u) = true ->
+  (length (filter (del_sel u since before) (dellog (st x))) <= Z.to_nat (eff_limit max_results limit))%nat ->
+  exists x' o, ostep_c04 sm roots NoFault x (QReq ob (OGetDel sid since before limit)) = Some (x', o) /\
+  st x' = st x /\
+  ((o = [(sid, Ctrl 204 [(P_what, 3)])] /\ forall y, logged_sel (st x) u since before y = false) \/
+   (exists maxid rs, o = [(sid, MetaDel maxid rs)] /\
+      (forall y, covers rs y = logged_sel (st x) u since before y) /\
+      (forall d, In d (dellog (st x)) -> del_sel u since before d = true -> d_delid d <= maxid) /\
+      (exists d, In d (dellog (st x)) /\ del_sel u since before d = true /\ d_delid d = maxid))).
+Proof. exact obo_get_del_history. Qed.
+Print Assumptions c04_obo_get_del_exact.
+
+(* the ACTING user has no R: nothing is shown, whatever the session's own user may read *)
+Theorem c04_obo_needs_read : forall sm roots f s c n0 sid ob u since before limit, attached c sid = true ->
+  dispatch_as_c04 sm roots sid ob = inl u -> is_reader (user_mode c u) = false ->
+  ostep_c04 sm roots f (mkState s (Some c) n0) (QReq ob (OGetData sid since before limit)) =
+    Some (mkState s (Some c) 0, [(sid, Ctrl 204 [(P_what, 1)])]) /\
+  ostep_c04 sm roots f (mkState s (Some c) n0) (QReq ob (OGetDel sid since before limit)) =
+    Some (mkState s (Some c) 0, [(sid, Ctrl 204 [(P_what, 3)])]).
+Proof. exact obo_query_needs_read. Qed.
+Print Assumptions c04_obo_needs_read.
+
+(* with ANY faults, after any obo history: message numbers unique, log rows well formed *)
+Theorem c04_obo_rows_wellformed : forall sm roots s0 h x, hist_init s0 -> oreach_c04 sm roots s0 h = Some x ->
+  NoDup (seqs (st x)) /\ dellog_wf (st x).
+Proof. exact oreach_rows. Qed.
+Print Assumptions c04_obo_rows_wellformed.
+
+(* ---- the handler that filters by the SESSION's user is refuted ---- *)
+
+(* "every message sent is visible to the acting user" holds of replyGetData as modelled
+   (GetAll(t.name, asUid, ...)) and is refuted for the variant that hands the session's own user
+   to the store (GetAll(t.name, sess.uid, ...)): a root session of user 1 reading on behalf of
+   user 2 is sent the message user 2 soft-deleted; the two coincide when the session acts for
+   its own user, which is why no test with ordinary sessions can tell them apart *)
+Theorem c04_obo_shows_only_visible : shows_only_visible_statement (fun f s c n sid su u => get_data f s c n sid u).
+Proof. exact get_data_shows_only_visible. Qed.
+Print Assumptions c04_obo_shows_only_visible.
+
+Theorem c04_obo_session_user_filter_refuted : ~ shows_only_visible_statement get_data_sessuid_c04.
+Proof. exact get_data_sessuid_refuted. Qed.
+Print Assumptions c04_obo_session_user_filter_refuted.
+
+Theorem c04_obo_session_user_filter_partial : forall f s c n sid u since before limit,
+  get_data_sessuid_c04 f s c n sid u u since before limit = get_data f s c n sid u since before limit.
+Proof. exact get_data_sessuid_partial. Qed.
+Print Assumptions c04_obo_session_user_filter_partial.
+
+(* non-vacuity: a root session of user 1 attaches, publishes for itself and for user 3,
+   soft-deletes 2 for itself and 4, 5 on behalf of user 2; user 2 soft-deletes 1 himself; the
+   history and the deletion log read on behalf of 2 equal what 2's own session gets ([3;2]);
+   the root's own view is [5;4;3;1], on behalf of 3 everything; obo from a non-root session: 403,
+   malformed obo: 400; the hypotheses of the refinement hold of this history *)
+Example c04_ex_obo_history :
+  exists r, orun_c04 ex_obo_sm [1%N] (mkState ex_obo_s0 None 0) ex_obo_hist = Some r /\
+  map (fun o => map (fun e => fst (fst e)) (data_of o)) (firstn 4 (skipn 11 (snd r))) =
+    [[3; 2]; [3; 2]; [5; 4; 3; 1]; [5; 4; 3; 2; 1]] /\
+  skipn 15 (snd r) = [[(1%N, MetaDel 3 [(1, 0); (4, 6)])]; [(2%N, MetaDel 3 [(1, 0); (4, 6)])]; [(1%N, MetaDel 1 [(2, 0)])];
+                      [(2%N, Ctrl 403 [])]; [(1%N, Ctrl 400 [])]; [(1%N, Ctrl 400 [])]] /\
+  dellog (st (fst r)) = [mkDel 1 1%N 2 3; mkDel 2 2%N 4 6; mkDel 3 2%N 1 2] /\
+  map (fun m => (m_seq m, m_from m)) (msgs (st (fst r))) = [(1, 1%N); (2, 2%N); (3, 3%N); (4, 1%N); (5, 3%N)].
+Proof. exact obo_history_example. Qed.
+
+Example c04_ex_obo_history_ok : ohist_ok_c04 ex_obo_sm [1%N] ex_obo_hist.
+Proof. exact obo_history_example_ok. Qed.
+
+(* the same history continued with {sub get="data del"} by the root session on behalf of user 2 *)
+Example c04_ex_obo_sub_get :
+  exists r, orun_c04 ex_obo_sm [1%N] (mkState ex_obo_s0 None 0) ex_obo_hist2 = Some r /\
+  skipn 21 (snd r) =
+    [[(1%N, Ctrl 200 [])];
+     [(1%N, Ctrl 200 []); (1%N, Data 3 3 9); (1%N, Data 2 2 8); (1%N, Ctrl 208 [(P_what, 1); (P_count, 2)]);
+      (1%N, MetaDel 3 [(1, 0); (4, 6)])];
+     [(1%N, Ctrl 304 [])]; [(2%N, Ctrl 403 [])]].
+Proof. exact obo_sub_get_example. Qed.
